@@ -363,8 +363,8 @@ func cmdCheck(args []string) int {
 
 func unitHasPkg(e *Engine, pat string) bool {
 	pn := strings.SplitN(pat, ":", 2)[0]
-	for _, p := range e.loadedPkgs {
-		if p.Pkg.Name() == pn {
+	for key := range e.funcs {
+		if strings.HasPrefix(key, pn+":") {
 			return true
 		}
 	}
